@@ -18,6 +18,11 @@ type LoadError struct {
 	Path    string
 	Message string
 	Range   ast.Range
+	// File is the file that contains the directive Range refers to (empty: the
+	// file that was asked for). For an error in an included file, RootRange is
+	// the range of the directive of the file asked for that leads to it.
+	File      string
+	RootRange ast.Range
 }
 
 func (e LoadError) Error() string {
